@@ -664,3 +664,36 @@ func allLoopsVisitAll(o *an.Obl, f *an.Func, except map[string]string) int {
 	}
 	return n
 }
+
+// failureStops: when one of the calls fails (the edge that is not an ok-edge
+// of its error test is taken) none of the forbidden sites can be reached any
+// more: the failure is handed out, not swallowed by a `break`, a `continue`
+// or a log statement.
+func failureStops(o *an.Obl, f *an.Func, what string, calls []an.Site, mode an.OkMode, forbidden []an.Site, whatForbidden string) {
+	if len(calls) == 0 {
+		o.FailAt(f.ID+"#no-"+what, f.Where(f.Body.Pos()), "%s not found in %s", what, f.ID)
+		return
+	}
+	ok, _ := f.UnionOk(calls, mode)
+	g := f.Graph()
+	seen := map[*flow.Vertex]bool{}
+	for e := range ok {
+		src := e.From
+		if seen[src] {
+			continue
+		}
+		seen[src] = true
+		for _, out := range src.Out {
+			if ok[out] {
+				continue
+			}
+			reach := g.Reach(out.To, nil, nil)
+			o.Site("failure edge of %s at %s", what, f.Where(src.Pos()))
+			for _, t := range forbidden {
+				if reach[t.V] {
+					o.FailAt(constructOf(f, t)+"<-after-failed-"+what, t.Where(), "%s is still reachable after %s failed (the failure at %s is swallowed)", whatForbidden, what, f.Where(src.Pos()))
+				}
+			}
+		}
+	}
+}
